@@ -36,7 +36,7 @@ BOUNDS = {"values": "Union of 8 types (CrossHair) / 19 literals (lpe)"}
 T0 = _dt.datetime(2020, 1, 1, tzinfo=_dt.timezone.utc)
 BATTERY = [0, 1, -1, 1.5, 0.0, True, False, b"", b"x", None, "", "x", [], [1], {}, {"a": 1}, (1,), T0, float("nan")]
 SLOTS = ("time", "measurement", "tag_key", "tag_value", "field_key", "field_value")
-ENTRIES = ("ctor", "setter", "update_static", "update_all_static", "update_callable", "update_all_callable", "handle_update_static", "handle_update_callable", "insert_nonpoint", "insert_multiple_nonpoint", "ctor+other", "update_static+other", "update_all_static+other", "handle_update_static+other")
+ENTRIES = ("insert_measurement_arg", "insert_multiple_measurement_arg", "handle_name_insert", "ctor+nonevalue", "setter+nonevalue", "update_static+nonevalue", "update_callable+nonevalue", "ctor", "setter", "update_static", "update_all_static", "update_callable", "update_all_callable", "handle_update_static", "handle_update_callable", "insert_nonpoint", "insert_multiple_nonpoint", "ctor+other", "update_static+other", "update_all_static+other", "handle_update_static+other")
 
 
 def valid_for(slot, v):
@@ -100,6 +100,33 @@ def attempt(db, entry, slot, v):
         kw = {"fields": {"f": v}}
     if v is None and slot in ("time", "measurement") and "update" in entry:
         return ("skip", "None is the documented 'argument not given' value of update()")
+    if entry in ("insert_measurement_arg", "insert_multiple_measurement_arg", "handle_name_insert"):
+        # the measurement NAME supplied as an argument of insert / as the name of a handle
+        if slot != "measurement":
+            return ("skip", "entry point only has a measurement slot")
+        if not v and not isinstance(v, str):
+            # falsy values are treated as "no measurement given" by insert (same truthiness rule as the
+            # known finding KF-C10-empty-measurement-name); nothing invalid can be stored through them
+            return ("skip", "falsy value = argument not given")
+        p = Point(time=T0, tags={"k": "a"})
+        try:
+            if entry == "insert_measurement_arg":
+                db.insert(p, measurement=v)
+            elif entry == "insert_multiple_measurement_arg":
+                db.insert_multiple([p], measurement=v)
+            else:
+                if not _hashable(v):
+                    return ("skip", "unhashable handle name")
+                db.measurement(v).insert(p)
+        except (ValueError, TypeError) as e:
+            return ("raised", e)
+        return ("accepted", None)
+    if entry.endswith("+nonevalue"):
+        # a key slot whose VALUE is None (a valid value): the key must still be validated
+        if slot not in ("tag_key", "field_key"):
+            return ("skip", "only key slots")
+        entry = entry[: -len("+nonevalue")]
+        kw = {"tags": {v: None, "ok": "v"}} if slot == "tag_key" else {"fields": {"ok": 1.0, v: None}}
     companion = entry.endswith("+other")
     if companion:
         # the same call also carries a VALID value for another argument
@@ -151,6 +178,8 @@ def check_one(db, entry, slot, v):
         ok_value = isinstance(v, Point)
     else:
         ok_value = valid_for(slot, v)
+    if entry in ("insert_measurement_arg", "insert_multiple_measurement_arg", "handle_name_insert"):
+        ok_value = isinstance(v, str)
     if kind == "accepted" and not ok_value:
         return False, f"{entry}: {slot} = {v!r} ({type(v).__name__}) was accepted without ValueError/TypeError"
     pts = db.all(sorted=False)
@@ -187,7 +216,7 @@ HARNESS = {"h_battery": h_battery}
 def obligations(tier):
     obs = []
     for entry in ENTRIES:
-        slots = SLOTS if not entry.startswith("insert") else ("time",)
+        slots = ("measurement",) if entry in ("insert_measurement_arg", "insert_multiple_measurement_arg", "handle_name_insert") else (SLOTS if not entry.startswith("insert") else ("time",))
         for slot in slots:
             for storage in ("mem", "csv"):
                 if storage == "csv" and entry.split("+")[0] in ("ctor", "setter"):
